@@ -1,6 +1,6 @@
 SPECIFICATION Spec
 CONSTANTS
-  StartIds = {1, 2, 3, 4, 5, 6, 7, 8, 9, 10, 11}
+  StartIds = {1, 2, 3, 4, 5, 6, 7, 8, 9, 10, 11, 12, 13}
   Intervals = {600}
   Bounds = {1, 2, 3}
   DClasses = {"belowS", "belowL", "aboveS", "aboveL", "half", "double", "quad", "main"}
